@@ -164,6 +164,9 @@ def run(rep, proj, tier):
                 if st in ("ok", "violated"):
                     n_decided += 1
 
+    # 1b. purity: the functions an order method returns are functions of their arguments
+    P.check_pure(rep, proj, "C03.pure", floor=150)
+
     # 2. splitting functions used by the scale variations
     split = proj.module(f"{P.CF}.splitting_functions")
     try:
